@@ -289,7 +289,8 @@ def _block(block, agg):
     if kind == "universal":
         _, combos = block
         paths = universal_paths()
-        with harness.temp_tree() as base:
+        # every other block of combinations scans a checkout that lies BELOW a hidden directory
+        with harness.temp_tree(under=".local/share" if sum(len(p) for c in combos for p in c[0]) % 2 else None) as base:
             build(base / "proj", paths)
             for patterns, source, spelling in combos:
                 files, seen, exc = run_scan(base, spelling, patterns, source)
